@@ -65,6 +65,7 @@ def generate(qualnames, repo=None):
             ex = Exec(info, c, reg, repo)
             fr.obligations = ex.run()
             fr.covers = ex.covers
+            fr.called = sorted(getattr(ex, 'called', set()))
         except Unsupported as exc:
             fr.undecided = 'unsupported: %s' % exc
         except Exception as exc:                      # generator crash: checker error
